@@ -4,6 +4,7 @@ From Cctp Require Import Model.Codec Model.State Model.Attest Model.Ledger Model
 From Cctp Require Import Proofs.MonadFacts Proofs.FlowFacts Proofs.DecisionFacts Proofs.KeccakFacts Proofs.CodecFacts.
 From Coq Require Import ZifyN ZifyNat ZifyBool.
 From Cctp Require Import Vectors.Examples.
+From Cctp Require Import Gen.GoF_depositForBurn Gen.GoH_DepositForBurn Gen.GoH_DepositForBurnWithCaller.
 
 (* the documented preconditions; [caller] is [] for the plain variant *)
 Definition deposit_conditions (e : env) (c : chain) (plan : list directive) (from : bytes) (amount : option Z)
@@ -124,8 +125,17 @@ Proof.
   apply C08_deposit_iff; [|exact ex_deposit_ok]. exists ex_module. vm_compute. reflexivity.
 Qed.
 
+(* depositForBurn, DepositForBurn and DepositForBurnWithCaller as translated from the Go source (dependency calls included) are the model functions (go_X_ok: forall e request h, eq_or_unmodelled (go_X e request h) (handler e (X request) h): same result and same state wherever the model gives a verdict at all, i.e. except on denominations outside the character set the model folds; for the two helpers the right-hand side is send_message / deposit_for_burn). The statement is about the Gallina program that tools/goextract TRANSLATED from the Go source of /repo on this run (Gen/GoH_*.v, Gen/GoF_*.v; meaning of the Go constructs: Gen/GoSem.v). For a function the translator could not read the conjunct is True (Gen/<file> names the reason, the evidence lists it) and the tie for it is the differential execution alone. *)
+Theorem C08_go_deposit_handlers_are_the_model :
+  go_fn_depositForBurn_ok /\
+  go_DepositForBurn_ok /\
+  go_DepositForBurnWithCaller_ok.
+Proof. split; [exact go_fn_depositForBurn_ok_proof|]. split; [exact go_DepositForBurn_ok_proof|]. exact go_DepositForBurnWithCaller_ok_proof. Qed.
+
+Print Assumptions C08_deposit_iff_core.
 Print Assumptions C08_deposit_iff.
 Print Assumptions C08_deposit_with_caller_iff.
 Print Assumptions C08_limit_boundary.
 Print Assumptions C08_no_limit.
 Print Assumptions C08_body_size_boundary.
+Print Assumptions C08_go_deposit_handlers_are_the_model.
